@@ -31,7 +31,7 @@ PROPS: dict[str, dict] = {
     "C03": _p("static analysis: writer/reader template agreement, same-list rule, SQL text rules, hash-input rule",
               "Narrow claim: rules D1-D7 decide the message codec, list identity, the duplicate/ordering SQL, the hash input/normaliser order, the window arithmetic, the overlap predicates and the sync/async method finders; soundness/completeness of duplicate detection itself is not decided." + _COMMON, "DESIGN.md 4 C03"),
     "C04": _p("static analysis: call-graph reachability of the ignore gate per rule and language branch, site-level gate-flow (path-sensitive value flow of constructed Violations through gate idioms), marker/regex sibling matrices, line-model def-use, scope coverage on CFG paths",
-              "Rules I1(T1,T2,T3), I2-I8 over 20 rule classes, 49 violation construction sites, 5 marker recognisers, 6 directive regexes and every line-list lookup." + _COMMON, "DESIGN.md 4 C04"),
+              "Rules I1(T1,T2), I2-I10 (I9 DRY filter order, I10 separator-stripped patterns) over 20 rule classes, 49 violation construction sites, 5 marker recognisers, 6 directive regexes and every line-list lookup." + _COMMON, "DESIGN.md 4 C04"),
     "C05": _p("static analysis: key provenance (documented section names vs metadata keys read), enabled-gate dominance with helper implication summaries, option wiring doc->from_dict->field->read, exception-path analysis to exit 2, CLI override level coverage, carrier/normalisation rules, threshold operator table",
               "Rules K1, K3, K4, K6-K12, K14 over 20 rule classes, 16 config classes (~110 documented options), 7 override helpers and all config readers." + _COMMON, "DESIGN.md 4 C05"),
     "C06": _p("static analysis: sibling agreement of the 19 command tails, exit-constant and handler rules, renderer iteration rules, constant-bound analysis of line/column arguments, static type of file_path from mypy",
@@ -45,7 +45,7 @@ PROPS: dict[str, dict] = {
     "C10": _p("static analysis: sibling agreement of the library and CLI entry points over resolved orchestrator callees and their finalize behaviour",
               "Rules A1-A4 over both entry points and the five orchestrator lint methods." + _COMMON, "DESIGN.md 4 C10"),
     "C11": _p("static analysis: ValueError-escape rule over resolved callees with enumerated safe idioms, SyntaxError handler rule, frozen swallow table, unbounded-recursion walker detection, read-handler rule, regex-AST ambiguity analysis, mypy Optional diagnostics",
-              "Rules E1-E11 over every function reachable from a rule (~900), the 67 regular expressions of src (E5: ambiguity degree from the regex AST), mypy's None/Optional diagnostics (E8), the SQL insert sites of the two stores (E9) and the magic-number message builders (E10)." + _COMMON, "DESIGN.md 4 C11"),
+              "Rules E1-E12 over every function reachable from a rule (~900), the 67 regular expressions of src (E5: ambiguity degree from the regex AST), mypy's None/Optional diagnostics (E8), the SQL insert sites of the two stores (E9) and the magic-number message builders (E10)." + _COMMON, "DESIGN.md 4 C11"),
     "C12": _p("static analysis: dimension (unit) analysis of line/column values - backwards inter-procedural tracing through parameters, dataclass fields, dict keys, tuple positions and returns to parser sources",
               "Rules B1-B8 over 49 construction sites and every call that passes a node position (B5 same-node line/column, B6 no parent line for a part, B7 record line of class-level findings); sinks whose sources cannot be followed are counted as undecided (frozen maximum), never as violations." + _COMMON, "DESIGN.md 4 C12"),
     "C13": _p("static analysis: line-model def-use rule (splitlines vs parser newline model)",
@@ -53,7 +53,7 @@ PROPS: dict[str, dict] = {
     "C14": _p("static analysis: must-pass-through (gate dominance) on lint_file paths, who-may-call on the rule-execution chain, table agreement, walk-shape rule",
               "Rules W1-W6 over lint_file's CFG paths, the rule-execution call chain, the exclusion tables and the os.walk loop." + _COMMON, "DESIGN.md 4 C14"),
     "C15": _p("static analysis: constant propagation of emitted rule ids x command filter predicates (table evaluation), export/constructibility rules, language-guard dominance, section-key disjointness",
-              "Rules U1-U7 over 20 commands x 37 emitted ids, 20 rule classes, the language detector and the shared parse helpers." + _COMMON, "DESIGN.md 4 C15"),
+              "Rules U1-U8 over 20 commands x 37 emitted ids, 20 rule classes, the language detector and the shared parse helpers." + _COMMON, "DESIGN.md 4 C15"),
     "C16": _p("static analysis: operator table at the SRP threshold site, branch symmetry of from_dict, sibling record tables, public-method feature matrix",
               "Rules T1-T4, T6-T11 over the evaluator, the config class, three analyzers and three method predicates." + _COMMON, "DESIGN.md 4 C16"),
     "C17": _p("static analysis: registry exhaustiveness (classifier strings = builder table = config-key table = config fields), sibling predicate agreement, grammar vocabulary",
